@@ -22,6 +22,17 @@ def _alarm(signum, frame):
     raise CaseTimeout()
 
 
+def _limit_memory():
+    """address-space limit of a worker: a change of the code under test that tries to allocate tens of gigabytes for a tiny input gets a
+    MemoryError (a `returns` failure of that case) instead of driving the machine into swap"""
+    try:
+        import resource
+        lim = int(float(os.environ.get('VT_CASE_MEMORY_GB', '16')) * (1 << 30))
+        resource.setrlimit(resource.RLIMIT_AS, (lim, lim))
+    except Exception:
+        pass
+
+
 def _run_one(arg):
     pid, desc = arg
     mod = importlib.import_module('vt.runtime.fsearch' if desc.get('kind') == 'fsearch' else f'vt.runtime.r_{pid}')
@@ -82,7 +93,7 @@ def main():
         # overall wall-clock budget: a change of the code under test that makes many cases slow must not hang the check;
         # cases not reached are reported (`not_evaluated`), cases that hit the per-case limit are `terminates` failures
         budget = float(os.environ.get('VT_BOUNDED_BUDGET', '900' if a.tier == 'quick' else '5400'))
-        with mp.Pool(a.jobs) as pool:
+        with mp.Pool(a.jobs, initializer=_limit_memory) as pool:
             cs = max(1, len(descs) // (a.jobs * 8))
             args = [(a.pid, d) for d in descs]
             it = pool.imap_unordered(_run_chunk, [args[i:i + cs] for i in range(0, len(args), cs)])
